@@ -347,7 +347,13 @@ theorem readCharset_encodeCharset (tl : List Int) (hlen : tl.length + 1 < 65536)
     ∃ bs, encodeCharset (0 :: tl) = .ok bs ∧
       readCharset (pre ++ bs ++ rest) pre.length (tl.length + 1) = .ok (0 :: tl, pre.length + bs.length) := by
   unfold encodeCharset
-  simp only [ne_eq, not_true_eq_false, if_false]
+  have hany : tl.any (fun x => decide (x < 0 ∨ x > 0xFFFF)) = false := by
+    rw [List.any_eq_false]
+    intro x hx
+    have := hb x hx
+    simp only [decide_eq_true_eq]
+    omega
+  simp only [ne_eq, not_true_eq_false, if_false, hany, Bool.false_eq_true]
   have hruns := groupRuns_bounds tl 0 65535 hb
   have hpos := groupRuns_pos tl
   split
